@@ -176,7 +176,9 @@ func (eval Evaluator) stepdiff(op0, op1 *rlwe.Ciphertext) (stepdiff *rlwe.Cipher
 	}
 
 	// Extremum gate: op0 * step + op1 * (1 - step) = step * diff + op1
-	level := utils.Min(diff.Level(), step.Level())
+	// The scale of diff is set to the moduli that the rescaling of step * diff divides by,
+	// i.e. the ones at the level of that product, one rescaling below the current level of diff.
+	level := utils.Min(diff.Level()-params.LevelsConsumedPerRescaling(), step.Level())
 
 	ratio := rlwe.NewScale(1)
 	for i := 0; i < params.LevelsConsumedPerRescaling(); i++ {
